@@ -15,7 +15,8 @@ import CE.Rules.Markers
   local-reference event is among the markers registered at the end (an invariant over `run`:
   CE/Rules/Markers.lean - what the validator "covers" only grows under each of the 45 statement
   kinds, under nested rule calls and under every event; the end of the document is accepted only
-  with nothing waiting).  The other clauses (distinctness, type masks) over whole documents are
+  with nothing waiting).  and `registered_markers_are_distinct` - in every state the validator reaches on any stream no
+  marker identifier is registered twice.  The type masks over whole documents are
   `…_partial`: exercised by the WF.REL oracle against the independent grammar's global
   conditions (`Spec.globalOK`) on every run.
 -/
@@ -109,6 +110,11 @@ theorem every_reference_of_an_accepted_document_has_its_marker (env : Env) (htbl
     (evs : List Ev) (h : (run env RState.init (evs ++ [.endDoc]) 0).2.1 = none) :
     ∀ id, Ev.refLocal id ∈ evs → id ∈ ((run env RState.init (evs ++ [.endDoc]) 0).2.2.marked.map (·.1)) :=
   accepted_references_have_markers env htbl evs h
+
+/-- the validator never registers one marker identifier twice, on any stream, accepted or not -/
+theorem registered_markers_are_distinct (env : Env) (evs : List Ev) :
+    ((run env RState.init evs 0).2.2.marked.map (·.1)).Nodup :=
+  run_distinct env evs RState.init 0 (by simp [MarkersDistinct, RState.init])
 
 /-- non-vacuity: a list with a forward reference and its marker is accepted -/
 example :
